@@ -16,10 +16,9 @@ Proof. exact flatten_is_reshape. Qed.
 Goal True. idtac "ASSUMPTIONS flatten_is_reshape". Abort.
 Print Assumptions flatten_is_reshape.
 
-(* rank >= 1: ... and the result shape is the spec's prefix ++ [product] ++ suffix *)
+(* ... and the result shape is the spec's prefix ++ [product] ++ suffix (0-d: (1,)) *)
 Theorem flatten_is_reshape_to_spec_shape :
-  forall (sh : list nat) (s e : Z) (s' e' : nat) (op : gather_op),
-         sh <> [] ->
+  forall (sh : shape) (s e : Z) (s' e' : nat) (op : gather_op),
          fwd_flatten sh s e = Some op ->
          wrap_dim (length sh) s = Some s' ->
          wrap_dim (length sh) e = Some e' ->
